@@ -21,7 +21,7 @@ THEOREMS = [
 LEAN_MODULES = ["PorepyVerif.C29.Props"]
 AUDIT = "PorepyVerif/C29/Audit.lean"
 DRIVER = "PorepyVerif/C29/Driver.lean"
-N = {"quick": 300, "thorough": 10000}
+N = {"quick": 300, "thorough": 4000}
 TOL = 1e-8
 RULE = ("sets of 1-8 segments (thorough: up to 12) with integer end points in a box |x| <= B, B in {2,3,4,6,10} (small boxes make "
         "coincidences frequent; collinear extensions reach |x| <= 14, isolated segments sit at |x| about 30-100), given as a point table (points may be shared by index or repeated under different indices) plus "
